@@ -12,6 +12,7 @@
   compared with the definitional semantics over source trees (DS/Model/RefEval.lean) by the `ref` stream.
 -/
 import DS.Proofs.FragStmts
+import DS.Proofs.FragIf
 
 namespace DS.Props.C02
 open DS.VM DS.Frag
@@ -116,7 +117,68 @@ theorem program_correct (ss : List F) (hne : ss ≠ []) (g : G) (hl : g.cfg.opLi
     | unsup _ => trivial
     | diverge => trivial
 
+/-- the whole program for a statement list with conditionals -/
+def progSts (ss : Sts) : Code := (compileSts ss ++ [Instr.halt]).toArray
+
+/-- C02, fragment with conditionals: statement lists of expression statements and `if c { … } else { … }` statements, nested to any
+    depth the VM's 20 block levels allow — the compiled code run by the dispatch loop from an empty stack yields exactly the value of
+    the last statement under `evalSts` (an `if` statement's own value is null), or exactly the first error, with the same heap: the
+    branch taken is the one the condition's truth value selects, the other branch's code is jumped over, and the operand stack is
+    cut back to the height the block was entered with. -/
+theorem conditional_program_correct (ss : Sts) (g : G) (hl : g.cfg.opLimit = 0) (hd : depthSts ss < stackSize) (hn : nestSts ss ≤ 20) :
+    (match evalSts g.cfg.ignoreDiv0 (ctxAttrs g 0) .null g.heap ss with
+     | (h', .ok (some v)) => ∃ k g' out, (∀ fuel, evalLoop (fuel + k) g (frame0 (progSts ss)) = (g', .ok out)) ∧ out.top = some v ∧ g'.heap = h'
+     | (h', .err m) => ∃ k g', (∀ fuel, evalLoop (fuel + k) g (frame0 (progSts ss)) = (g', .err m)) ∧ g'.heap = h'
+     | _ => True) := by
+  have hcode : CodeAt (frame0 (progSts ss)).code (frame0 (progSts ss)).pc (compileSts ss ++ [Instr.halt]) := codeAt_toArray _
+  have hready : Ready g.cfg.ignoreDiv0 g (frame0 (progSts ss)) := ⟨hl, rfl, by simp [frame0, newStack]⟩
+  have hrun := run_sts g.cfg.ignoreDiv0 (ctxAttrs g 0) .null ss none g (frame0 (progSts ss)) hcode.append_left hready rfl
+    (by simp [blockVal, frame0]) (by simpa [frame0] using hd) (by simpa [frame0] using hn) (by intro v hv; cases hv)
+  simp only [evalSts]
+  cases hev : evalStsA g.cfg.ignoreDiv0 (ctxAttrs g 0) .null none g.heap ss with
+  | mk h' r =>
+    rw [hev] at hrun
+    cases r with
+    | ok ov =>
+      cases ov with
+      | none => trivial
+      | some v =>
+        obtain ⟨k, g', f', hruns, haft, hcfg, hheap, _⟩ := hrun
+        have hh := hcode.append_right.head
+        have hpcH : f'.pc < f'.code.size := by rw [haft.code, haft.pc]; exact hh.1
+        have hiH : f'.code[f'.pc]! = Instr.halt := by rw [haft.code, haft.pc]; exact hh.2
+        have hsd := slots_le_depth ss
+        have htop : f'.top = slotsSts ss := by rw [haft.top]; simp [frame0]
+        have hpos : 1 ≤ slotsSts ss := by
+          -- a list whose value is `some v` is not empty
+          cases ss with
+          | nil => simp [evalStsA] at hev
+          | expr _ _ => simp only [slotsSts]; omega
+          | ite _ _ _ _ => simp only [slotsSts]; omega
+        have hst : stackSize = 1000 := rfl
+        refine ⟨1 + k, addOps g' f'.ctx 1, { top := some (f'.stack[f'.top - 1]!), spans := solvedSpans (addOps g' f'.ctx 1) { f' with pc := f'.pc + 1 } }, ?_, ?_, hheap⟩
+        · intro fuel
+          have := hruns (fuel + 1)
+          rw [Nat.add_assoc] at this
+          rw [this, step_halt fuel g' f' hpcH hiH (by rw [hcfg]; exact hl) (by omega) (by omega)]
+        · simp only; rw [haft.val v rfl]
+    | err m =>
+      obtain ⟨k, g', hf, hheap⟩ := hrun
+      exact ⟨k, g', hf, hheap⟩
+    | panic _ => trivial
+    | unsup _ => trivial
+    | diverge => trivial
+
 /-! ### non-vacuity and the shapes the compiler emits -/
+
+/-- `if 1 {2} else {3}` and `if 1 {2}` as the real compiler emits them -/
+example : compileSts (.ite (.lit 1) (.expr (.lit 2) .nil) (.expr (.lit 3) .nil) .nil) =
+    [.pushInt 1, .blockPush, .jne (some 2), .pushInt 2, .jmp (some 1), .pushInt 3, .blockPop] := by
+  simp [compileSts, compile]
+example : compileSts (.ite (.lit 1) (.expr (.lit 2) .nil) .nil .nil) =
+    [.pushInt 1, .blockPush, .jne (some 2), .pushInt 2, .jmp (some 0), .blockPop] := by
+  simp [compileSts, compile]
+
 
 /-- `x = 5; x + 1` (a variable assigned, then read) -/
 example : compileS [.asg "x" (.lit 5), .bin .add (.var "x" 7 8) (.lit 1)] =
@@ -140,5 +202,11 @@ example : (match evalS false 0 heap0 [.bin .add (.var "x" 0 1) (.lit 1)] with | 
 /-- … and a program that fails keeps the assignments made before the failure -/
 example : (match evalS false 0 heap0 [.asg "x" (.lit 5), .bin .div (.var "x" 7 8) (.lit 0)] with
     | (h, .err _) => (dictGet (h.dictOf 0) "x" matches some (.int 5)) | _ => false) = true := by decide
+
+/-- `x = 1; if x { x = 2 } else { x = 3 }; x` is 2, and with `x = 0` it is 3 -/
+example : (match evalSts false 0 .null heap0 (.expr (.asg "x" (.lit 1)) (.ite (.var "x" 0 0) (.expr (.asg "x" (.lit 2)) .nil) (.expr (.asg "x" (.lit 3)) .nil)
+    (.expr (.var "x" 0 0) .nil))) with | (_, .ok (some (.int i))) => i == 2 | _ => false) = true := by decide
+example : (match evalSts false 0 .null heap0 (.expr (.asg "x" (.lit 0)) (.ite (.var "x" 0 0) (.expr (.asg "x" (.lit 2)) .nil) (.expr (.asg "x" (.lit 3)) .nil)
+    (.expr (.var "x" 0 0) .nil))) with | (_, .ok (some (.int i))) => i == 3 | _ => false) = true := by decide
 
 end DS.Props.C02
